@@ -257,7 +257,7 @@ func (eng *Engine) VerifyFunction(fn *ssa.Function, cone map[string]bool) (run *
 
 // assumeWellTyped adds the basic type invariants of symbolic inputs.
 func (st *State) assumeWellTyped(t Term, ty types.Type) {
-	switch u := ty.Underlying().(type) {
+	switch u := under(ty).(type) {
 	case *types.Pointer, *types.Map, *types.Chan:
 		st.Assume(Ge(t, IntLit(0)))
 		st.Assume(Lt(t, st.alloc))
@@ -271,7 +271,7 @@ func (st *State) assumeWellTyped(t Term, ty types.Type) {
 		si := st.run.eng.reg.Struct(t.Sort)
 		if si != nil && len(si.Fields) <= 16 {
 			for i, f := range si.Fields {
-				switch f.Type.Underlying().(type) {
+				switch under(f.Type).(type) {
 				case *types.Pointer, *types.Map, *types.Slice:
 					st.assumeWellTyped(st.run.eng.reg.FieldGet(t, i), f.Type)
 				}
@@ -519,7 +519,7 @@ func (run *FuncRun) derefPtr(st *State, p Term, elem types.Type) *LVal {
 		}
 	}
 	so := run.eng.reg.SortOf(elem)
-	if _, ok := elem.Underlying().(*types.Struct); ok {
+	if _, ok := under(elem).(*types.Struct); ok {
 		return &LVal{Root: rObj, Sort: so, Ref: p, Type: elem}
 	}
 	return &LVal{Root: rCell, Sort: so, Ref: p, Type: elem}
@@ -666,12 +666,12 @@ func (run *FuncRun) execInstr(st *State, instr ssa.Instruction) bool {
 			return true
 		}
 		ref := st.NewRef()
-		switch elem.Underlying().(type) {
+		switch under(elem).(type) {
 		case *types.Struct:
 			name := compStruct(so)
 			st.SetH(name, Store(st.H(name, ArrSort(SInt, so)), ref, reg.Zero(so)))
 		case *types.Array:
-			es := reg.SortOf(elem.Underlying().(*types.Array).Elem())
+			es := reg.SortOf(under(elem).(*types.Array).Elem())
 			name := compArr(es)
 			st.SetH(name, Store(st.H(name, ArrSort(SInt, ArrSort(SInt, es))), ref, ConstArray(ArrSort(SInt, es), reg.Zero(es))))
 		default:
@@ -687,7 +687,7 @@ func (run *FuncRun) execInstr(st *State, instr ssa.Instruction) bool {
 			run.store(st, a, v)
 		case Term:
 			run.nilCheck(st, a, in)
-			run.store(st, run.derefPtr(st, a, in.Addr.Type().Underlying().(*types.Pointer).Elem()), v)
+			run.store(st, run.derefPtr(st, a, under(in.Addr.Type()).(*types.Pointer).Elem()), v)
 		default:
 			fail("%s: store to %T", run.key, addr)
 		}
@@ -697,8 +697,8 @@ func (run *FuncRun) execInstr(st *State, instr ssa.Instruction) bool {
 		run.set(st, in, run.binop(st, in))
 	case *ssa.FieldAddr:
 		base := run.val(st, in.X)
-		pt := in.X.Type().Underlying().(*types.Pointer).Elem()
-		stt := pt.Underlying().(*types.Struct)
+		pt := under(in.X.Type()).(*types.Pointer).Elem()
+		stt := under(pt).(*types.Struct)
 		ft := stt.Field(in.Field).Type()
 		switch b := base.(type) {
 		case *LVal:
@@ -718,7 +718,7 @@ func (run *FuncRun) execInstr(st *State, instr ssa.Instruction) bool {
 	case *ssa.Index:
 		x := run.term(st, in.X)
 		idx := run.term(st, in.Index)
-		switch in.X.Type().Underlying().(type) {
+		switch under(in.X.Type()).(type) {
 		case *types.Array:
 			run.set(st, in, Select(x, idx))
 		default:
@@ -732,14 +732,14 @@ func (run *FuncRun) execInstr(st *State, instr ssa.Instruction) bool {
 		m := run.term(st, in.Map)
 		k := run.term(st, in.Key)
 		v := run.term(st, in.Value)
-		mt := in.Map.Type().Underlying().(*types.Map)
+		mt := under(in.Map.Type()).(*types.Map)
 		run.addObligation(st, "nil", "mapwrite", Neq(m, IntLit(0)), "assignment to entry in nil map", run.posOf(in))
 		st.Assume(Neq(m, IntLit(0)))
 		st.storedInto(m.S, v.S)
 		st.storedInto(m.S, k.S)
 		run.mapStore(st, mt, m, k, v)
 	case *ssa.MakeMap:
-		mt := in.Type().Underlying().(*types.Map)
+		mt := under(in.Type()).(*types.Map)
 		mc := run.mapComps(mt)
 		ref := st.NewRef()
 		st.SetH(mc.Dom, Store(st.H(mc.Dom, mc.DomS), ref, ConstArray(ArrSort(mc.K, SBool), TFalse)))
@@ -747,7 +747,7 @@ func (run *FuncRun) execInstr(st *State, instr ssa.Instruction) bool {
 		st.SetH(mc.Card, Store(st.H(mc.Card, mc.CardS), ref, IntLit(0)))
 		run.set(st, in, ref)
 	case *ssa.MakeSlice:
-		es := reg.SortOf(in.Type().Underlying().(*types.Slice).Elem())
+		es := reg.SortOf(under(in.Type()).(*types.Slice).Elem())
 		ln := run.term(st, in.Len)
 		cp := run.term(st, in.Cap)
 		run.addObligation(st, "bounds", "makeslice", And(Ge(ln, IntLit(0)), Le(ln, cp)), "make: len/cap in range", run.posOf(in))
@@ -861,7 +861,7 @@ func (run *FuncRun) execUnOp(st *State, in *ssa.UnOp) {
 			run.set(st, in, v)
 		case Term:
 			run.nilCheck(st, a, in)
-			v := run.load(st, run.derefPtr(st, a, in.X.Type().Underlying().(*types.Pointer).Elem()))
+			v := run.load(st, run.derefPtr(st, a, under(in.X.Type()).(*types.Pointer).Elem()))
 			run.afterLoad(st, v, in.Type())
 			run.set(st, in, v)
 		default:
@@ -884,7 +884,7 @@ func (run *FuncRun) afterLoad(st *State, v Val, ty types.Type) {
 	if !ok {
 		return
 	}
-	switch ty.Underlying().(type) {
+	switch under(ty).(type) {
 	case *types.Pointer, *types.Map:
 		if !strings.HasPrefix(t.S, "r!") && t.S != "0" {
 			st.Assume(And(Ge(t, IntLit(0)), Lt(t, st.alloc)))
@@ -1030,7 +1030,7 @@ func (run *FuncRun) execIndexAddr(st *State, in *ssa.IndexAddr) {
 	reg := run.eng.reg
 	base := run.val(st, in.X)
 	idx := run.term(st, in.Index)
-	switch xt := in.X.Type().Underlying().(type) {
+	switch xt := under(in.X.Type()).(type) {
 	case *types.Slice:
 		s := run.valToTerm(st, base)
 		es := reg.SortOf(xt.Elem())
@@ -1038,7 +1038,7 @@ func (run *FuncRun) execIndexAddr(st *State, in *ssa.IndexAddr) {
 		st.Assume(And(Ge(idx, IntLit(0)), Lt(idx, SliceLen(s))))
 		run.set(st, in, &LVal{Root: rElem, Sort: es, Ref: SliceArr(s), Idx: idx, Type: xt.Elem()})
 	case *types.Pointer:
-		at := xt.Elem().Underlying().(*types.Array)
+		at := under(xt.Elem()).(*types.Array)
 		es := reg.SortOf(at.Elem())
 		switch b := base.(type) {
 		case Term:
@@ -1062,7 +1062,7 @@ func (run *FuncRun) execIndexAddr(st *State, in *ssa.IndexAddr) {
 
 func (run *FuncRun) execLookup(st *State, in *ssa.Lookup) {
 	reg := run.eng.reg
-	switch xt := in.X.Type().Underlying().(type) {
+	switch xt := under(in.X.Type()).(type) {
 	case *types.Map:
 		m := run.term(st, in.X)
 		k := run.term(st, in.Index)
@@ -1139,9 +1139,9 @@ func (run *FuncRun) execSlice(st *State, in *ssa.Slice) {
 	if in.Max != nil {
 		fail("%s: 3-index slices are outside the modelled subset", run.key)
 	}
-	switch xt := in.X.Type().Underlying().(type) {
+	switch xt := under(in.X.Type()).(type) {
 	case *types.Pointer: // pointer to array
-		at := xt.Elem().Underlying().(*types.Array)
+		at := under(xt.Elem()).(*types.Array)
 		base, ok := run.val(st, in.X).(Term)
 		if !ok {
 			fail("%s: slice of non-heap array", run.key)
